@@ -3,7 +3,7 @@
 //! resulting totally ordered event trace is replayed by the Lean model (`gmodel kernel`).
 
 use crate::ctrl::{Ctrl, Rng, RunReport, Strategy};
-use grevm::verif::{rt, sched::{ContextDriver, DependencyDriver}};
+use grevm::verif::{rt, sched::{ContextDriver, DependencyDriver, WaitDriver}};
 use std::sync::Arc;
 
 pub const NONE: usize = usize::MAX;
@@ -192,6 +192,77 @@ pub fn run_dep(
     });
     let report = ctrl.finish();
     (report, dep.snapshot())
+}
+
+/// One producer step of the wait/notify kernel: optionally write the condition, then notify.
+#[derive(Clone, Copy, Debug)]
+pub enum WaitOp {
+    SetNotify(bool),
+    Notify,
+}
+
+/// Producer scripts. Every producer ends by making the condition true and notifying, so the
+/// waiter must terminate (that it does, without a timeout, is the property).
+pub fn gen_wait_scripts(rng: &mut Rng, producers: usize, ops: usize) -> Vec<Vec<WaitOp>> {
+    (0..producers)
+        .map(|_| {
+            let mut v: Vec<WaitOp> = (0..ops)
+                .map(|_| match rng.below(5) {
+                    0 => WaitOp::Notify,
+                    1 | 2 => WaitOp::SetNotify(false),
+                    _ => WaitOp::SetNotify(true),
+                })
+                .collect();
+            v.push(WaitOp::SetNotify(true));
+            v
+        })
+        .collect()
+}
+
+/// Thread 0 is the waiter (`register; loop { wait_while(!ready) }` until the predicate was seen
+/// false), the others are producers. Returns the report and whether the waiter finished.
+pub fn run_wait(scripts: &[Vec<WaitOp>], waiter_delay: usize, strategy: Strategy, seed: u64) -> (RunReport, bool) {
+    let w = WaitDriver::new();
+    let done = std::sync::atomic::AtomicBool::new(false);
+    let ctrl = Ctrl::new(strategy, seed, scripts.len() + 1);
+    ctrl.install();
+    std::thread::scope(|scope| {
+        {
+            let (w, done) = (&w, &done);
+            scope.spawn(move || {
+                let _enrolled = rt::enroll(0);
+                for _ in 0..waiter_delay {
+                    rt::pt4("h_call", 0, 0, 0, 0);
+                }
+                w.register_current_thread();
+                loop {
+                    let blocked = w.wait_while_not_ready(std::time::Duration::from_secs(60), |b| {
+                        rt::obs4("w_cond", b as usize, 0, 0, 0);
+                    });
+                    if !blocked {
+                        break;
+                    }
+                }
+                rt::obs4("w_done", 0, 0, 0, 0);
+                done.store(true, std::sync::atomic::Ordering::SeqCst);
+            });
+        }
+        for script in scripts {
+            let w = &w;
+            scope.spawn(move || {
+                let _enrolled = rt::enroll(0);
+                for op in script {
+                    if let WaitOp::SetNotify(v) = *op {
+                        rt::pt4("p_set", v as usize, 0, 0, 0);
+                        w.set_ready(v);
+                    }
+                    w.notify();
+                }
+            });
+        }
+    });
+    let report = ctrl.finish();
+    (report, done.load(std::sync::atomic::Ordering::SeqCst))
 }
 
 pub fn trace_lines(report: &RunReport) -> Vec<String> {
